@@ -125,7 +125,7 @@ PROPS["C19"] = dict(level="exploration",
     assumptions=["reference wire format: protowire.AppendTag(2047, Fixed32Type) + little-endian crc32.Castagnoli of the exact bytes the inner codec returned for this call",
                  "equality of the decoded message is modulo the prepended unknown field 2047"],
     stages=[dict(name="codec", engine="codec", test="TestVerifCodec", batches=dict(quick=4, thorough=16),
-                 essential={"C19": ["C19.marshal", "C19.decode:codec", "C19.decode:proto", "C19.error-pass-through", "C19.earlier-output-intact", "C19.decode-into-used-target", "C19.remarshal-modified"]}, timeout=dict(quick=900, thorough=7200))])
+                 essential={"C19": ["C19.marshal", "C19.decode:codec", "C19.decode:proto", "C19.error-pass-through", "C19.earlier-output-intact", "C19.decode-into-used-target", "C19.remarshal-modified", "C19.memoising-inner-codec"]}, timeout=dict(quick=900, thorough=7200))])
 
 PROPS["C17"] = dict(level="exploration",
     rule="seeded pb.ApiConfig values (zero values, nil sub-messages, up to 5 method entries with overlapping names, nil entries) and JSON texts (5 protojson renderings + mutations: unknown field, wrong type, truncation, wrong case, duplicates); non-trivial = a config driven through the whole pool observation (initial size, watermark, maxSize, per-method probes) or a parser differential or a GCPMultiEndpoint aliasing check completed; distinct = hash of the config text and variant",
@@ -133,7 +133,7 @@ PROPS["C17"] = dict(level="exploration",
                  "GCPMultiEndpoint pools are dialled with a dialer that always fails (no network is needed for the configuration checks)"],
     stages=[dict(name="cfg", engine="cfg", test="TestVerifCfg", batches=dict(quick=8, thorough=16),
                  essential={"C17": ["C17.parse-accept", "C17.parse-reject", "C17.round-trip", "C17.initial-size", "C17.second-update", "C17.caller-mutates", "C17.caller-object-unchanged",
-                                    "C17.effective-config-wb", "C17.method-mapping", "C17.method-key-path", "C17.method-bind", "C17.watermark", "C17.max-size", "C17.gme-config-copy", "C17.gme-update", "C17.update-on-emptied-pool"]},
+                                    "C17.effective-config-wb", "C17.method-mapping", "C17.method-key-path", "C17.method-bind", "C17.watermark", "C17.max-size", "C17.gme-config-copy", "C17.gme-update", "C17.update-on-emptied-pool", "C17.edge-values"]},
                  timeout=dict(quick=900, thorough=7200))])
 
 PROPS["C12"] = dict(level="exploration",
@@ -142,7 +142,7 @@ PROPS["C12"] = dict(level="exploration",
                  "blocking is decided from goroutine states (sync.Cond.Wait / sync.Mutex.Lock) sampled by the harness"],
     stages=[dict(name="stream", engine="stream", test="TestVerifStream", batches=dict(quick=8, thorough=16),
                  essential={"C12": ["C12.not-created-at-construction", "C12.creation-gated", "C12.recv-before-send", "C12.recv-waits-during-creation", "C12.recv-released",
-                                    "C12.first-message-visible", "C12.retry-message-visible", "C12.failed-creation-returns-typed-nil", "C12.sends-in-order", "C12.recv-delegated", "C12.recv-gets-creation-error", "C12.late-recv-reaches-stream",
+                                    "C12.first-message-visible", "C12.retry-message-visible", "C12.failed-creation-returns-typed-nil", "C12.late-send-after-cancel-reaches-stream", "C12.sends-in-order", "C12.recv-delegated", "C12.recv-gets-creation-error", "C12.late-recv-reaches-stream",
                                     "C12.recv-returns-on-context-end", "C12.bystander:before-send", "C12.bystander-delegates", "C12.unary-transparent", "C12.unary-nested-context", "C12.recv-released-while-send-blocks", "C12.late-recv-after-cancel-reaches-stream", "C12.first-send-error-no-second-stream"]},
                  timeout=dict(quick=900, thorough=7200))])
 
